@@ -88,7 +88,7 @@ namespace
             char *buf = (char *)simalloc::raw_alloc(size); // exact-size backing store
             struct Free { char *b; unsigned n; ~Free() { simalloc::st().live.erase(b); ::free(b); } } fr{buf, size};
             ring_head r;
-            ring_init(&r, size);
+            if (ring_init(&r, size) != &r) violate("C03/result", "ring_init does not return its ring");
             std::deque<uint8_t> m;
             size_t capacity = size - 1;
             bool wrapped = false, was_full = false, was_empty_after_data = false;
@@ -214,7 +214,7 @@ namespace
                         seqno++;
                     }
                     if (n && r.head + n >= size) probe("bulk_move_across_wrap");
-                    ring_move_head(&r, n);
+                    if (ring_move_head(&r, n) != &r) violate("C03/result", "ring_move_head does not return its ring");
                     tr.ev("dma_write %u", n);
                     break;
                 }
@@ -230,7 +230,7 @@ namespace
                         m.pop_front();
                     }
                     if (n && r.tail + n >= size) probe("bulk_move_across_wrap");
-                    ring_move_tail(&r, n);
+                    if (ring_move_tail(&r, n) != &r) violate("C03/result", "ring_move_tail does not return its ring");
                     tr.ev("dma_read %u", n);
                     break;
                 }
